@@ -103,7 +103,7 @@ theorem src_stream2bytearray_fields_eq (h : Nat) :
   unfold Gen.src_stream2bytearray_fields Dap4.chunkSize Dap4.chunkType
   constructor <;>
   simp (decide := true) only [runItem, exec, eval, bind_ok', lookup_cons_eq, lookup_setVar_eq, lookup_setVar_ne,
-    asInt_int, pyInt_int, e24, e255, emask, pyAnd_nat, pyShr_nat, land_mask24, land_mask8]
+    asInt_int, pyInt_int, e24, e255, emask, pyAnd_nat, pyShr_nat, land_mask24, land_mask8, land_mask24', land_mask8']
 
 theorem src_safe_dmr_and_data_fields_eq (h : Nat) :
     runItem [("chunk_header", .int h)] Gen.src_safe_dmr_and_data_fields "dmr_length"
@@ -113,14 +113,14 @@ theorem src_safe_dmr_and_data_fields_eq (h : Nat) :
   unfold Gen.src_safe_dmr_and_data_fields Dap4.chunkSize Dap4.chunkType
   constructor <;>
   simp (decide := true) only [runItem, exec, eval, bind_ok', lookup_cons_eq, lookup_setVar_eq, lookup_setVar_ne,
-    asInt_int, pyInt_int, e24, e255, emask, pyAnd_nat, pyShr_nat, land_mask24, land_mask8]
+    asInt_int, pyInt_int, e24, e255, emask, pyAnd_nat, pyShr_nat, land_mask24, land_mask8, land_mask24', land_mask8']
 
 theorem src_get_endianness_fields_eq (h : Nat) :
     runItem [("chunk_header", .int h)] Gen.src_get_endianness_fields "chunk_type"
       = .ok (.int (Dap4.chunkType h)) := by
   unfold Gen.src_get_endianness_fields Dap4.chunkType
   simp (decide := true) only [runItem, exec, eval, bind_ok', lookup_cons_eq, lookup_setVar_eq, lookup_setVar_ne,
-    asInt_int, pyInt_int, e24, e255, emask, pyAnd_nat, pyShr_nat, land_mask24, land_mask8]
+    asInt_int, pyInt_int, e24, e255, emask, pyAnd_nat, pyShr_nat, land_mask24, land_mask8, land_mask24', land_mask8']
 
 theorem chunkType_lt (h : Nat) : Dap4.chunkType h < 256 := by
   unfold Dap4.chunkType; omega
